@@ -542,10 +542,18 @@ impl TestShape {
     }
 }
 
-pub fn c12_shapes() -> Vec<(String, ShapeSpec)> {
+pub fn c12_shapes(tier: Tier) -> Vec<(String, ShapeSpec)> {
     let mut v: Vec<(String, ShapeSpec)> = vec![];
-    for n in 3..=8 {
+    for n in 3..=tier.pick(8, 12) {
         v.push((format!("polygon{}", n), ShapeSpec::Polygon(n)));
+    }
+    if tier == Tier::Thorough {
+        for radii in [vec![1., 0.95, 1., 0.95, 1., 0.95, 1., 0.95], vec![3., 2.5, 3.], vec![0.3, 0.25, 0.3, 0.25]].iter() {
+            v.push((format!("radial{:?}", radii), ShapeSpec::Radial(radii.clone())));
+        }
+        for &(r, a, d) in [(0.637556, 60., 1.), (0.4, 90., 1.2), (1.2, 150., 2.1)].iter() {
+            v.push((format!("trimer({},{},{})", r, a, d), ShapeSpec::Trimer(r, a, d)));
+        }
     }
     for radii in [vec![1., 0.8, 1.], vec![1., 0.6, 1., 0.6], vec![1., 0.9, 0.8, 0.9], vec![1., 0.7, 1., 0.7, 1., 0.7], vec![2., 1.5, 2., 1.5, 2.]].iter() {
         v.push((format!("radial{:?}", radii), ShapeSpec::Radial(radii.clone())));
@@ -571,8 +579,8 @@ pub const BAND: f64 = 1e-9;
 
 pub fn c12(tier: Tier) -> ! {
     let mut run = Run::new("C12", tier, "exploration");
-    let shapes = c12_shapes();
-    let grid_n: i64 = tier.pick(20, 40);
+    let shapes = c12_shapes(tier);
+    let grid_n: i64 = tier.pick(20, 60);
     let mut jobs = vec![];
     for (name, spec) in shapes.iter() {
         let body = spec.body();
@@ -584,6 +592,9 @@ pub fn c12(tier: Tier) -> ! {
             _ => 6,
         };
         let mut rots = vec![0., PI / nsides as f64, 2. * PI / nsides as f64, PI / 2., PI, 0.3217505543966422, 1.0, 2.7182818];
+        if tier == Tier::Thorough {
+            rots.extend(vec![3. * PI / nsides as f64, PI / 3., 2. * PI / 3., 3. * PI / 2., 1e-9, PI - 1e-9, 0.1, 4.4, 5.9, 1e-12, 1e-7, 1e-6, 3e-6, 1e-5, 3e-5, 1e-4, 1e-3]);
+        }
         rots.dedup();
         for (ri, rot) in rots.iter().enumerate() {
             for &mirror in [false, true].iter() {
@@ -759,9 +770,12 @@ pub fn c02_shapes(tier: Tier) -> Vec<ShapeSpec> {
         }
     }
     v.push(ShapeSpec::Circle);
-    for &r in [0.2, 0.4, 0.637556, 0.7, 1., 1.5].iter() {
-        for &a in [30., 60., 90., 120., 150., 180.].iter() {
-            for &d in [0.3, 0.6, 1., 1.5, 2., 2.5].iter() {
+    let rs: Vec<f64> = tier.pick(vec![0.2, 0.4, 0.637556, 0.7, 1., 1.5], vec![0.1, 0.2, 0.3, 0.4, 0.5, 0.637556, 0.7, 0.85, 1., 1.25, 1.5, 2.]);
+    let angs: Vec<f64> = tier.pick(vec![30., 60., 90., 120., 150., 180.], (1..=12).map(|k| 15. * k as f64).collect());
+    let ds: Vec<f64> = tier.pick(vec![0.3, 0.6, 1., 1.5, 2., 2.5], vec![0.15, 0.3, 0.45, 0.6, 0.8, 1., 1.25, 1.5, 1.75, 2., 2.5, 3.]);
+    for &r in rs.iter() {
+        for &a in angs.iter() {
+            for &d in ds.iter() {
                 v.push(ShapeSpec::Trimer(r, a, d));
             }
         }
@@ -823,7 +837,10 @@ pub fn c02(tier: Tier) -> ! {
         evals += 1;
         // polygon area: the crate's shapes are star-shaped about the origin by construction,
         // shoelace is exact for them
-        let area_ok = (got_area - want_area).abs() <= 1e-9 * want_area.abs().max(1e-300);
+        // 1e-8: the lens formula of two discs loses half its digits at exact tangency (acos of
+        // a value one ulp below 1), a relative error of ~1e-9 in the area of such trimers that is
+        // still "floating-point accuracy" of a correct formula
+        let area_ok = (got_area - want_area).abs() <= 1e-8 * want_area.abs().max(1e-300);
         if !area_ok && fails.len() < 3 {
             fails.push((key, format!("{}: area() = {} but the true area is {}", spec.label(), got_area, want_area), json!({"shape": spec.label()})));
         }
@@ -848,7 +865,7 @@ pub fn c02(tier: Tier) -> ! {
                             valid_states += 1;
                             let want = n * want_area / lat.area();
                             let case = json!({"group": g, "shape": spec.label(), "params": p.json(), "score": score, "true_fraction": want});
-                            if !(score.is_finite()) || !((score - want).abs() <= 1e-9 * want.abs()) {
+                            if !(score.is_finite()) || !((score - want).abs() <= 1e-8 * want.abs()) {
                                 if fails.len() < 3 {
                                     fails.push((key, format!("{} {}: score {} but copies x area / cell area = {}", g, spec.label(), score, want), case.clone()));
                                 }
